@@ -67,3 +67,10 @@ func VerifPeekPooled() VerifPooledState {
 	ppFree.Put(p)
 	return st
 }
+
+// VerifState exposes the hidden state of the printer handed out as
+// SafePrinter / fmt.State (read-only).
+func (p *pp) VerifState() (validUntil int, markerOpen bool, rawLen int, mode int, override int) {
+	vu, mo, l, _ := p.buf.VerifState()
+	return vu, mo, l, int(p.buf.GetMode()), int(p.override)
+}
